@@ -143,7 +143,14 @@ func (sc *serverConn) closeIdleConn() {
 	if sc.debug {
 		sc.logger.Printf("Connection is idle. Closing\n")
 	}
-	close(sc.closer)
+	// The idle timer is re-armed by every request, including one that arrives
+	// after it has fired and before the stream loop has acted on it, so this can
+	// run more than once. A second close() of the channel took the whole process
+	// down; a signal that is already pending is simply not repeated.
+	select {
+	case sc.closer <- struct{}{}:
+	default:
+	}
 }
 
 func (sc *serverConn) Handshake() error {
